@@ -85,3 +85,51 @@ package writeaheadlog
 //@   property C11 C12
 //@ structural pkgcallersonly os.Create in : log files are created by rotate only
 //@   property C11 C12
+
+// A read of the whole log: every closed file in list order, then the active file, each read with its records kept, the
+// contents concatenated in that order; an unreadable file is an error, never a silent gap.
+//@ func (*WriteAheadLog).All
+//@   property C11 C12
+//@   modifies auto
+//@   maypanic
+//@   at readLogFile 1
+//@     before[every_closed_file_is_read_with_its_records_kept] arg(0) == wal && arg(1) == s.logName && arg(2)
+//@   at loopback 1
+//@     before[records_are_appended_in_file_order_after_those_read_so_far] res(readLogFile, 1, 2) == nil && len(res) == len(prev(res)) + len(res(readLogFile, 1, 1))
+//@          && forall(j, 0, len(prev(res)), res[j] == prev(res)[j], trigger(res[j]))
+//@          && forall(j, 0, len(res(readLogFile, 1, 1)), res[len(prev(res)) + j] == res(readLogFile, 1, 1)[j], trigger(res(readLogFile, 1, 1)[j]))
+//@   at readLogFile 2
+//@     before[the_active_file_is_read_last_with_its_records_kept] arg(0) == wal && arg(1) == wal.active.logName && arg(2) && wal.active.file != nil
+//@   at return 1
+//@     before[an_unreadable_closed_file_is_an_error] arg(1) != nil && len(arg(0)) == 0
+//@   at return 2
+//@     before[an_unreadable_active_file_is_an_error] arg(1) != nil && len(arg(0)) == 0
+
+// Closing and rotating by hand both finalise the active file through flush (sync, close, keep its statistic).
+//@ func (*WriteAheadLog).Close
+//@   property C11 C12
+//@   modifies auto
+//@   maypanic
+//@   at return 0
+//@     before[close_is_flush] arg(0) == res(flush, 1) && argOf(flush, 1, 0) == wal
+
+//@ func (*WriteAheadLog).Rotate
+//@   property C11 C12
+//@   modifies auto
+//@   maypanic
+//@   at return 0
+//@     before[rotate_is_flush] arg(0) == res(flush, 1) && argOf(flush, 1, 0) == wal
+
+// The active file is replaced only when there is none or it has grown past the rotation size.
+//@ func (*WriteAheadLog).maybeRotate
+//@   property C11 C12
+//@   requires wal.active.file == nil ==> wal.active.maxEpoch == 0
+//@   modifies auto
+//@   maypanic
+//@   ensures[success_leaves_an_open_active_file_with_its_own_or_an_empty_statistic] result == nil ==> wal.active.file != nil && (wal.active.maxEpoch == old(wal.active.maxEpoch) || wal.active.maxEpoch == 0)
+//@   at rotate 1
+//@     before[a_missing_active_file_is_created] wal.active.file == nil
+//@   at rotate 2
+//@     before[a_full_active_file_is_rotated] wal.active.file != nil && res(Stat, 1, 1) == nil && res(Size, 1) > 1048576
+//@   at return 4
+//@     before[otherwise_the_active_file_is_kept] arg(0) == nil && wal.active.file == old(wal.active.file) && wal.active.file != nil
